@@ -1,14 +1,21 @@
 import Ucfg.Spec.C03
 import Ucfg.Props.C03
 import Ucfg.Model.Normalize
+import Ucfg.Model.Unpack
+import Ucfg.Props.C09
+import Ucfg.Props.C04
+import Ucfg.Props.C01
+import Ucfg.Props.C16
+import Ucfg.Lemmas.DictSorted
 /-
   C06 — struct -> Config -> struct is the identity.
 
   Proved: every primitive value of every sized kind survives normalisation (the split into
   int64 / uint64 carriers, strings stored verbatim) followed by typed unpacking into its own
-  kind.  PARTIAL: the lift through struct fields, tags, pointers, slices, arrays and maps (a
-  mutual induction over `Ty` relating normStructInto and reifyStructT) is not mechanised; the
-  correspondence check compares whole generated structs (nil = empty collection).
+  kind, and the lift to whole structs of primitive fields (`flat_struct_roundtrip`: NewFrom then
+  Unpack is the identity, for any number of exported untagged fields with distinct simple names).
+  PARTIAL: the lift through tags, pointers, slices, arrays, maps and nested structs is not
+  mechanised; the correspondence check compares whole generated structs (nil = empty collection).
 -/
 namespace Ucfg.C06
 open Ucfg Outcome Ucfg.Spec.C03
@@ -100,5 +107,243 @@ theorem int_roundtrip_never_alters (std : Stdlib) (o : Opts) (bits : Nat) (i : I
 /-! non-vacuity -/
 example : intRange 8 (-128) = true := by decide
 example : intRange 64 (2^63 - 1) = true := by decide
+
+/-! ### the lift: a struct of primitive fields comes back as it went in
+
+`Item`: one field - its Go name, kind and value as Go data, the primitive the normalizer stores and the scalar the
+unpacker returns (the per-kind theorems above provide these for every value of every kind).  For any number of such
+fields with distinct simple names: `NewFrom(struct)` followed by `Unpack` into the zero value of the same struct type
+returns exactly the scalars. -/
+
+structure Item where
+  g : String
+  k : Kind
+  x : GoData
+  p : Prim
+  s : Scalar
+
+def Item.name (it : Item) : String := it.g.toLower
+
+def Item.good (std : Stdlib) (o : Opts) (it : Item) : Prop :=
+  exported it.g = true ∧ C09.SimpleKey o it.name ∧ normValue o it.x = .ok (.prim it.p) ∧ it.p ≠ .nil ∧
+  reifyPrim std it.k it.p = .ok it.s
+
+def foldDset (d : Dict) (items : List Item) : Dict := items.foldl (fun d it => dset d it.name (.prim it.p)) d
+
+theorem foldDset_sorted : ∀ (items : List Item) (d : Dict), dSorted d = true → dSorted (foldDset d items) = true
+  | [], d, h => h
+  | it :: r, d, h => by
+    simp only [foldDset, List.foldl_cons]
+    exact foldDset_sorted r _ (dset_sorted d _ _ h)
+
+theorem foldDset_get : ∀ (items : List Item) (d : Dict) (k : String), (items.map Item.name).Nodup →
+    dget (foldDset d items) k =
+      (match items.find? (fun it => it.name == k) with
+       | some it => some (.prim it.p)
+       | none => dget d k)
+  | [], d, k, _ => by simp [foldDset]
+  | it :: r, d, k, hnd => by
+    simp only [List.map_cons, List.nodup_cons] at hnd
+    simp only [foldDset, List.foldl_cons]
+    have ih := foldDset_get r (dset d it.name (.prim it.p)) k hnd.2
+    simp only [foldDset] at ih
+    rw [ih]
+    by_cases hk : it.name = k
+    · subst hk
+      have hnone : r.find? (fun it' => it'.name == it.name) = none := by
+        rw [List.find?_eq_none]
+        intro it' hit'
+        simp only [beq_iff_eq]
+        intro he
+        exact hnd.1 (he ▸ List.mem_map_of_mem hit')
+      simp [List.find?_cons, hnone, dget_dset_same]
+    · have hb : (it.name == k) = false := by simpa using hk
+      simp only [List.find?_cons, hb]
+      cases r.find? (fun it' => it'.name == k) with
+      | some it' => rfl
+      | none => simp [dget_dset_other _ _ _ _ hk]
+
+theorem parseTags_empty : parseTags "" = ("", {}) := by decide
+
+/-- normalizeStructInto over untagged exported fields with distinct simple names that are new to the config -/
+theorem normStruct_plain (std : Stdlib) (o : Opts) (a : List Val) (ha : Bool) :
+    ∀ (items : List Item) (d : Dict) (hd : Bool), (∀ it ∈ items, it.good std o) → (items.map Item.name).Nodup →
+      (∀ it ∈ items, dget d it.name = none) →
+      ∃ hd', normStructInto o (.sub d a hd ha) (items.map (fun it => (it.g, "", it.x))) =
+        .ok (.sub (foldDset d items) a hd' ha)
+  | [], d, hd, _, _, _ => ⟨hd, rfl⟩
+  | it :: r, d, hd, hg, hnd, hnew => by
+    simp only [List.map_cons, List.nodup_cons] at hnd
+    obtain ⟨hex, hsk, hnorm, _, _⟩ := hg it (by simp)
+    have hn1 : dget d it.name = none := hnew it (by simp)
+    have hnew' : ∀ it' ∈ r, dget (dset d it.name (.prim it.p)) it'.name = none := by
+      intro it' hit'
+      have hne : it.name ≠ it'.name := fun h => hnd.1 (h ▸ List.mem_map_of_mem hit')
+      rw [dget_dset_other _ _ _ _ hne]
+      exact hnew it' (List.mem_cons_of_mem _ hit')
+    obtain ⟨hd', hrest⟩ := normStruct_plain std o a ha r (dset d it.name (.prim it.p)) true
+      (fun it' h => hg it' (List.mem_cons_of_mem _ h)) hnd.2 hnew'
+    refine ⟨hd', ?_⟩
+    simp only [List.map_cons]
+    unfold normStructInto
+    simp only [hex, Bool.not_true, Bool.false_eq_true, if_false, parseTags_empty]
+    simp only [hnorm, Outcome.bind_ok]
+    have hfn : fieldName "" it.g = it.name := by simp [fieldName, Item.name]
+    rw [hfn, C09.setField_simple_new o d a hd ha it.name (.prim it.p) hsk hn1]
+    simp only [Outcome.bind_ok]
+    simpa [foldDset] using hrest
+
+/-- merging the normalized struct into the empty config (what NewFrom does) keeps every entry -/
+theorem mergeIntoEmpty_get (h : Handling) (D : Dict) (a : List Val) (hd ha : Bool) (hs : dSorted D = true)
+    (k : String) (p : Prim) (hk : dget D k = some (.prim p)) :
+    ∃ D' A' hd' ha', mergeP h Val.empty (.sub D a hd ha) = .sub D' A' hd' ha' ∧ dget D' k = some (.prim p) := by
+  unfold mergeP
+  simp only
+  unfold mergeValsP
+  simp only [Val.empty, toCfg?]
+  refine ⟨_, _, _, _, rfl, ?_⟩
+  have hne : D.isEmpty = false := by
+    cases D with
+    | nil => simp [dget] at hk
+    | cons e r => rfl
+  simp only [hne, Bool.false_eq_true, if_false]
+  have hinner : (if h = Handling.replace then ([] : Dict) else []) = [] := by split <;> rfl
+  rw [hinner, C01.dict_pointwise h [] D k (dSorted_nodup D hs), hk]
+  simp [store, inPlace, mergeValsP, cpy]
+
+/-- the field loop of Unpack over primitive fields whose settings are there: every field gets its scalar -/
+theorem reifyStruct_plain (std : Stdlib) (o : Opts) (Dd : Dict) (A : List Val) (hd ha : Bool) :
+    ∀ (items : List Item) (n : Nat), (∀ it ∈ items, it.good std o ∧ dget Dd it.name = some (.prim it.p)) →
+      items.length + 3 ≤ n →
+      reifyStructT std n o (items.map (fun it => (it.g, "", "", Ty.prim it.k)))
+        (items.map (fun it => zeroOf (.prim it.k))) (.sub Dd A hd ha) = .ok (items.map (fun it => GoVal.scalar it.s))
+  | [], n, _, hn => by
+    cases n with
+    | zero => omega
+    | succ m => simp [reifyStructT]
+  | it :: r, n, hg, hn => by
+    obtain ⟨⟨hex, hsk, _, hnn, hre⟩, hget⟩ := hg it (by simp)
+    cases n with
+    | zero => simp at hn
+    | succ m =>
+      cases m with
+      | zero => simp at hn
+      | succ m' =>
+        cases m' with
+        | zero => simp at hn
+        | succ m'' =>
+          have ih := reifyStruct_plain std o Dd A hd ha r (m'' + 2) (fun it' h => hg it' (List.mem_cons_of_mem _ h))
+            (by simp at hn ⊢; omega)
+          simp only [List.map_cons]
+          unfold reifyStructT
+          have hacc : accessField o it.g "" "" = .ok (some ⟨it.name, {}, [], if (({} : TagOpts).handling != o.handling) = true then ({} : TagOpts).handling else o.handling⟩) := by
+            unfold accessField
+            simp [hex, parseTags_empty, parseValidatorTags, fieldName, Item.name]
+          rw [hacc]
+          simp only [Outcome.bind_ok, Bool.false_eq_true, if_false]
+          -- the lookup finds the stored primitive
+          have hpath : pathGet tcPlain (parsePathOpts it.name o) (.sub Dd A hd ha) = .ok (some (.prim it.p)) := by
+            have : parsePathOpts it.name o = [.named it.name] := hsk
+            rw [this]
+            simp [pathGet, fieldGet, tcPlain, Val.dict, hget]
+          have hnil : (Val.prim it.p).isNilPrim = false := by
+            cases hp : it.p <;> simp [Val.isNilPrim] <;> exact absurd hp hnn
+          unfold getField'
+          simp only
+          have hpo : ∀ hh, parsePathOpts it.name { o with handling := hh } = parsePathOpts it.name o := fun _ => rfl
+          simp only [hpo, hpath, Val.isNilOpt, hnil, Bool.false_eq_true, if_false]
+          rw [C04.mergeValue_prim]
+          unfold reifyPrimitiveT
+          simp only [hnil, Bool.false_eq_true, if_false, hre, runValidators, List.findSome?_nil, Outcome.bind_ok]
+          rw [ih]
+          rfl
+
+theorem nodup_name_inj : ∀ (items : List Item), (items.map Item.name).Nodup →
+    ∀ a b, a ∈ items → b ∈ items → a.name = b.name → a = b
+  | [], _, a, _, ha, _, _ => by cases ha
+  | it :: r, hnd, a, b, ha, hb, hab => by
+    simp only [List.map_cons, List.nodup_cons] at hnd
+    simp only [List.mem_cons] at ha hb
+    rcases ha with rfl | ha <;> rcases hb with rfl | hb
+    · rfl
+    · exact absurd (hab ▸ List.mem_map_of_mem hb) hnd.1
+    · exact absurd (hab ▸ List.mem_map_of_mem ha) hnd.1
+    · exact nodup_name_inj r hnd.2 a b ha hb hab
+
+/-- **C06, lifted to structs of primitive fields.** For any number of exported, untagged fields of primitive kinds with
+distinct simple names (each holding a value its kind round-trips - the per-kind theorems above), under any options without
+per-field policies: `NewFrom(struct)` followed by `Unpack` into the zero value of the same struct type returns exactly
+the struct that went in. -/
+theorem flat_struct_roundtrip (std : Stdlib) (o : Opts) (items : List Item) (hft : o.fieldTree = none)
+    (hg : ∀ it ∈ items, it.good std o) (hnd : (items.map Item.name).Nodup) (hlen : items.length + 3 ≤ unpackFuel)
+    (hne : items ≠ []) :
+    (newFrom o (.strct (items.map (fun it => (it.g, "", it.x)))) >>= fun cfg =>
+      unpack std o (.strct (items.map (fun it => (it.g, "", "", Ty.prim it.k))))
+        (.strct (items.map (fun it => zeroOf (.prim it.k)))) cfg) =
+    .ok (.strct (items.map (fun it => GoVal.scalar it.s))) := by
+  obtain ⟨hd', hnorm⟩ := normStruct_plain std o [] false items [] false hg hnd (fun _ _ => rfl)
+  have hsorted : dSorted (foldDset [] items) = true := foldDset_sorted items [] rfl
+  have hentries : ∀ it ∈ items, dget (foldDset [] items) it.name = some (.prim it.p) := by
+    intro it hit
+    rw [foldDset_get items [] it.name hnd]
+    have hfind : ∃ it', items.find? (fun i => i.name == it.name) = some it' ∧ it'.name = it.name := by
+      cases hf : items.find? (fun i => i.name == it.name) with
+      | none =>
+        rw [List.find?_eq_none] at hf
+        exact absurd (by simp) (hf it hit)
+      | some it' => exact ⟨it', rfl, by simpa using List.find?_some hf⟩
+    obtain ⟨it', hf, hn'⟩ := hfind
+    rw [hf]
+    -- distinct names: the item found is the item asked for
+    have hmem : it' ∈ items := List.mem_of_find?_eq_some hf
+    have : it' = it := nodup_name_inj items hnd it' it hmem hit hn'
+    rw [this]
+  -- NewFrom
+  have hnew : ∃ D' A' h1 h2, newFrom o (.strct (items.map (fun it => (it.g, "", it.x)))) = .ok (.sub D' A' h1 h2) ∧
+      ∀ it ∈ items, dget D' it.name = some (.prim it.p) := by
+    unfold newFrom cfgMerge
+    simp only [normalize]
+    have he : (Val.empty : Val) = .sub [] [] false false := rfl
+    rw [he, hnorm]
+    simp only [Outcome.bind_ok, mergeCfg, hft, C16.noTree_eq_global]
+    -- shape of the merge result
+    have hshape : ∃ D' A' h1 h2, mergeP o.handling (.sub [] [] false false) (.sub (foldDset [] items) [] hd' false) =
+        .sub D' A' h1 h2 ∧ ∀ it ∈ items, dget D' it.name = some (.prim it.p) := by
+      have hD : (foldDset [] items).isEmpty = false := by
+        cases items with
+        | nil => exact absurd rfl hne
+        | cons it r =>
+          have := hentries it (by simp)
+          cases hfd : foldDset [] (it :: r) with
+          | nil => rw [hfd] at this; simp [dget] at this
+          | cons e r' => rfl
+      have hinner : (if o.handling = Handling.replace then ([] : Dict) else []) = [] := by split <;> rfl
+      have hm : ∃ A' h2, mergeP o.handling (.sub [] [] false false) (.sub (foldDset [] items) [] hd' false) =
+          .sub (mergeDictP o.handling [] (foldDset [] items)) A' true h2 := by
+        unfold mergeP
+        simp only
+        unfold mergeValsP
+        simp only [toCfg?, hD, Bool.false_eq_true, if_false, hinner]
+        exact ⟨_, _, rfl⟩
+      obtain ⟨A', h2, hm⟩ := hm
+      refine ⟨_, A', true, h2, hm, ?_⟩
+      intro it hit
+      rw [C01.dict_pointwise o.handling [] (foldDset [] items) it.name (dSorted_nodup _ hsorted), hentries it hit]
+      simp [store, inPlace, mergeValsP, cpy]
+    obtain ⟨D', A', h1, h2, hm, hall⟩ := hshape
+    exact ⟨D', A', h1, h2, by rw [hm], hall⟩
+  obtain ⟨D', A', h1, h2, hnf, hall⟩ := hnew
+  rw [hnf]
+  simp only [Outcome.bind_ok]
+  unfold unpack
+  simp only
+  rw [reifyStruct_plain std o D' A' h1 h2 items unpackFuel (fun it hit => ⟨hg it hit, hall it hit⟩) hlen]
+  rfl
+
+/-! non-vacuity: `Item.good` asks for what the per-kind theorems above deliver (e.g. `int_roundtrip` for every in-range
+value of every signed kind, `string_roundtrip`, `bool_roundtrip`, `uint_roundtrip`, `float64_roundtrip`), an exported Go
+name and a field name that is one path segment (`C09.SimpleKey`, e.g. any name without the separator that does not spell
+a number); the kernel cannot evaluate `String.toLower` in this Lean version, so the instance is exercised by the
+`roundtrip` kind of the correspondence run (thousands of generated structs) instead of a `decide` example -/
 
 end Ucfg.C06
